@@ -49,6 +49,13 @@ const STATEMENTS: &[(&str, &[&str])] = &[
     ("y := ([1]~ ? mut int)().1", &["y"]),
     ("y += 5", &[]),
     ("x := *y", &["x"]),
+    // an iterator kept in a top-level variable: later inputs see the value itself, with its position
+    ("it := [1, 2, 3]~", &["it"]),
+    ("y := it()", &["y"]),
+    ("y := it $]", &["y"]),
+    ("y := (it $+, it $*)", &["y"]),
+    ("f := () -> any { return it $] }", &["f"]),
+    ("f := () -> any { return it() }", &["f"]),
 ];
 
 fn dump_vars(interp: &Interpreter, names: &BTreeSet<String>) -> String {
@@ -264,11 +271,14 @@ fn check_history(h: &[usize], acc: &mut Acc) {
                 cells_of(v, &mut pre_cells, 0);
             }
         }
+        // an iterator held by the parse-time interpreter is pre-existing mutable state too (its
+        // position): shared by design, like a cell
+        let pre_iterators = pre_names.iter().any(|nme| interp.get_variable(nme).is_some_and(|v| matches!(v, Variable::Function(_)) && simplesl::variable::Typed::as_type(v).is_iterator()));
         let (mut c1, mut c2) = (Vec::new(), Vec::new());
         cells_of(&r1, &mut c1, 0);
         cells_of(&r2, &mut c2, 0);
         let shared: Vec<usize> = c1.iter().filter(|p| c2.contains(p) && !pre_cells.contains(p)).copied().collect();
-        Some((before, mid, after, top_before, top_after, canon_typed(&r1), canon_typed(&r2), shared.len(), pre_cells.is_empty(), rest))
+        Some((before, mid, after, top_before, top_after, canon_typed(&r1), canon_typed(&r2), shared.len(), pre_cells.is_empty() && !pre_iterators, rest))
     });
     if let Ok(Some((before, mid, after, tb, ta, r1, r2, shared, no_pre_cells, rest))) = iso {
         if tb != ta {
